@@ -365,4 +365,33 @@ theorem iterations_bounded_partial :
      | .running s => decide (s.i = 10 ∧ s.multiplier = 1 / 1024)
      | _ => false) = true := by decide +kernel
 
+/-! ## T01.8 the deflagration/hybrid entry point never reports a detonation -/
+
+/-- **T01.8.**  `findWallVelocityDeflagrationHybrid` calls `solveWall` with `vMax = min(vJ, fastestDeflag())`, so `vMax ≤ vJ`
+(for `fastestDeflag` itself see `Props.C06W.deflag_le_vJ`).  Then a successful result with a velocity is labelled `deflagration`
+(which covers hybrids), never `detonation`, and the velocity is at most the Jouguet velocity: the reported velocity lies in the
+window of its solution type.  (C01: "inside the hydrodynamically allowed window for its solution type".) -/
+theorem deflagration_entry_never_detonation (press : Rat → Rat) (vMin vMax vJ : Rat)
+    (brent : Rat → Rat → Rat × Bool) (flagsAt : Rat → Flags) (fuel : Nat) (o : Out) (v : Rat)
+    (ho : solveWall press vMin vMax vJ brent flagsAt fuel = o)
+    (hs : o.success = true) (hv : o.velocity = some v) (hlt : vMin < vMax) (hJ : vMax ≤ vJ)
+    (hbrent : ∀ a b, a ≤ b → a ≤ (brent a b).1 ∧ (brent a b).1 ≤ b) :
+    o.typ = .deflagration ∧ v ≤ vJ ∧ o.typ ≠ .detonation := by
+  obtain ⟨_, _, _, _, _, _, hvmax, _, _, hdet, hdef, _, _⟩ :=
+    success_velocity_spec press vMin vMax vJ brent flagsAt fuel o v ho hs hv hlt hbrent
+  have hle : v ≤ vJ := le_trans hvmax hJ
+  have hn : ¬ vJ < v := not_lt.2 hle
+  refine ⟨hdef.2 hn, hle, ?_⟩
+  intro h
+  exact hn (hdet.1 h)
+
+/-- non-vacuity: the instance of T01.1 has `vMax = 9/10`; with `vJ = 9/10` the hypothesis `vMax ≤ vJ` holds and the result is a deflagration -/
+example :
+    (solveWall (fun v => if v < 3 / 20 then 1 else v - 1 / 2) (1 / 10) (9 / 10) (9 / 10)
+      (fun a b => ((a + b) / 2, true)) (fun _ => ⟨true, true, true, true, false⟩) 64).typ = .deflagration
+    ∧ ((9 : Rat) / 10 ≤ 9 / 10) := by
+  constructor
+  · decide +kernel
+  · norm_num
+
 end Props.C01
